@@ -46,7 +46,7 @@ TEXT = {
          "tracked node with values x - lr*g of its own gradient and no gradient, leaves frozen ones and all other nodes untouched; closed form; refuted "
          "without the gradient-length hypothesis (why C03 matters). Correspondence: 1-5 parameters, all gradient subsets, repeated updates; also checked "
          "against x - lr*g computed independently (bitwise).", "6 C13"),
- "C14": ("proof", 'Theorems (Props/C14.v): from a `ready` state (good store, parameters are distinct tracked leaves WITHOUT gradient) one forward/backward/update round returns the sum of the cost array of the current parameters and batch, re-binds every parameter to theta - lr*g where g is exactly the adjoint-table entry of the single pass on the cost node from an empty slot (the exact gradient by C01), and ends `ready` again; hence every iteration of any run starts and ends ready (no leak); doubled backward = both tables. Correspondence: random dense/conv models, 1-4 iterations; each parameter change also compared with -lr times a central-difference gradient of an independent Python reference loss at the observed parameters.', "6 C14"),
+ "C14": ("proof", "Theorems (Props/C14exact.v, C14.v): END TO END - from a `ready` state reached by any program history (parameters are distinct tracked leaves without gradient; the store may still hold earlier iterations), one forward/backward/update round returns the summed cost of the current parameters on the current batch and, for every tangent direction tau on the parameters, sum_p <theta_p - theta'_p, tau_p> = lr * <ones, dual-number tangent of the cost along tau>: theta' = theta - lr * exact gradient (C14_train_step_exact; over the reals with no scalar hypothesis: ..._reals); the state is `ready` again, so by induction every iteration of any run does this (no leak between iterations; doubled backward = both tables). Dense and conv layers, all activations, both costs; side condition: batch shapes the layers accept. Correspondence: random models with batch shapes varying between iterations, 1-4 iterations; each parameter change also compared with -lr times a central-difference gradient of an independent Python reference loss at the observed parameters.", "6 C14"),
  "C15": ("proof", "Theorems (Props/C15.v): the dense layer value (x W^T + b, batched or single vector) and conv layer value, model_forward as the fold of the layers, "
          "the mse and cross-entropy element formulas and model_backward = sum of the cost array, from C04-C07. Correspondence: random models; forward values "
          "and loss also compared with a pure-Python evaluation of the documented formulas on the parameters corgi reports.", "6 C15"),
